@@ -24,9 +24,10 @@ ASSUMPTIONS = ["edits go through the matrix API or through attributes of a frame
 TRUSTED = ["copy.deepcopy is modelled as a structural copy that preserves sharing inside the copied matrix"]
 CORRESPONDENCE = "histories of CanMatrix operations == CanVerif.step (Model/Lookup.lean)"
 
-IDS = [(0x10, False), (0x20, False), (0x10, True), (0x18FEF100, True), (0x0CFEF102, True), (0x18EA2100, True), (0x20, True)]
+IDS = [(0x10, False), (0x20, False), (0x10, True), (0x18FEF100, True), (0x0CFEF102, True), (0x18EA2100, True), (0x20, True),
+       (0x1AFEF100, True), (0x19FEF103, True)]    # the same PF/PS on another data page (DP, EDP bits belong to the PGN)
 NAMES = ["A", "B", "C"]
-PGNS = [0xFEF1, 0xEA21, 0xEA00, 0x1234]
+PGNS = [0xFEF1, 0xEA21, 0xEA00, 0x1234, 0x2FEF1, 0x1FEF1, 0x3FEF1]
 
 
 def prelude(variant):
@@ -228,13 +229,13 @@ class Run(object):
             self.mats.append(db)
             for f in db.frames:
                 self.reg(f)
-            return {"h": len(self.mats) - 1}, None
+            return {"h": len(self.mats) - 1}, self.snap(len(self.mats) - 1)
         if k == "deepcopy":
             db = pycopy.deepcopy(self.mats[op[1]])
             self.mats.append(db)
             for f in db.frames:
                 self.reg(f)
-            return {"h": len(self.mats) - 1}, None
+            return {"h": len(self.mats) - 1}, self.snap(len(self.mats) - 1)
         if k == "setId":
             fr = self.objs[op[1]]
             fr.arbitration_id.id = op[2]
@@ -267,13 +268,13 @@ class Run(object):
             r = canmatrix.copy.copy_frame(cm.ArbitrationId(op[3], op[4]), db, dst)
             for f in dst.frames:
                 self.reg(f)
-            return {"b": bool(r)}, None
+            return {"b": bool(r)}, self.snap(op[2])
         if k == "merge":
             src = self.mats[op[2]]
             db.merge([src])
             for f in db.frames:
                 self.reg(f)
-            return None, None
+            return None, self.snap(op[1])
         if k == "byId":
             s = self.snap(op[1])
             return self.found(db.frame_by_id(cm.ArbitrationId(op[2], op[3]))), s
